@@ -609,5 +609,6 @@ func TestC05(t *testing.T) {
 	r.Obs("abstract_table_cells", int64(total))
 	if r.Thorough() {
 		r.Obs("table_enumerated_completely", 1)
+		r.Exhaustive("the abstract admission table (48 server configurations x 1440 request shapes) and the routing table (9 attach variants x 16 paths x methods); exhaustive with respect to that abstraction only")
 	}
 }
